@@ -81,7 +81,7 @@ def make_packs(cases):
     return packs
 
 
-def run_cases(binary, cases, v, props, label, sigextra=None, packs=None):
+def run_cases(binary, cases, v, props, label, sigextra=None, packs=None, relabel=None):
     """Render, pack (per mode), execute, compare. Registers violations tagged with a property in `props`."""
     packs_all = packs if packs is not None else make_packs(cases)
     jobs = [(binary, [pk], structured) for pk, structured in packs_all]
@@ -105,6 +105,8 @@ def run_cases(binary, cases, v, props, label, sigextra=None, packs=None):
             v.evaluated((label, json.dumps(r.case, sort_keys=True)))
         for (r, text, o) in problems:
             prop = classify_problem(r, text, structured)
+            if relabel:
+                prop = relabel(prop, r, text)
             oo = v.cov.setdefault("mismatches_by_property", {})
             oo[prop] = oo.get(prop, 0) + 1
             if prop not in props:
@@ -247,4 +249,177 @@ def c14(tier):
     return v.finish()
 
 
-TABLE = {"C10": c10, "C11": c11, "C12": c12, "C13": c13, "C14": c14}
+WCHAR = {1: "a", 2: "\u00e9", 3: "\u4e16", 4: "\U0001F980"}
+
+
+def rewrite_packs(cases, per=400):
+    """Rewrite.tla cases: unit widths + insertion points -> statements whose message literal starts exactly at the
+    insertion points, with the units as (multi-byte) characters."""
+    packs = []
+    uid = 3000
+    for mode in ("unstructured", "structured"):
+        for i in range(0, len(cases), per):
+            pk = st.Pack("r_%s_%d.rs" % (mode[0], i // per))
+            for c in cases[i:i + per]:
+                widths, pts = c["input"], sorted(c["points"])
+                chars = [WCHAR[w] for w in widths]
+                first = pts[0] if pts else len(chars)
+                if first > 0:
+                    pk.filler("    // " + "".join(chars[:first]) + "\n")
+                for j, b in enumerate(pts):
+                    e = pts[j + 1] if j + 1 < len(pts) else len(chars)
+                    uid += 1
+                    macro = st.MACROS[uid % 3]
+                    body = "".join(chars[b:e])
+                    r = st.Rendered()
+                    prefix = "    "
+                    r.text = prefix + macro + '!("' + body + '");'
+                    r.case = {"s": {"head": "bare", "target": "none", "kvs": [], "msg": "units", "dir": "none", "trailing": "none",
+                                    "layout": "tight", "context": "indent"}, "mode": mode, "outcome": "missing",
+                              "sep": ";" if mode == "structured" else "msg", "units": widths, "points": pts}
+                    r.uid, r.decoy, r.stmt_off = uid, False, len(prefix)
+                    r.msg_off = len(prefix) + len(macro) + 3
+                    r.kv_allowed = [len(prefix) + len(macro) + 2]
+                    pk.add_inline(r)
+                    pk.filler("\n")
+                pk.filler("    let _sep%d = 0;\n" % uid)
+            pk.finish()
+            packs.append((pk, mode == "structured"))
+    return packs
+
+
+def corpus_step(binary, v, props, names=("fib-rs", "breadlog-src", "rocket")):
+    """Real-code corpora through check, edit, check, edit; judged by Observe.tla (opaque trees) and by direct facts."""
+    import corpus
+    import runlevel as rl
+    jobs = [(binary, common.REPO, n, s) for n in names for s in (False, True)]
+    with multiprocessing.get_context("fork").Pool(min(len(jobs), 6)) as pool:
+        facts = pool.map(corpus.run_corpus, jobs)
+    batch = rl.Batch()
+    for f in facts:
+        batch.add_events(f["events"], {"scenario": "corpus-%s" % f["corpus"], "scenario_desc": {"corpus": f["corpus"], "structured": f["structured"]},
+                                       "steps": ["check", "edit", "check", "edit"],
+                                       "sig": {"mode": "corpus", "fault": "none", "structured": f["structured"], "corpus": f["corpus"]}})
+        v.evaluated(("corpus", f["corpus"], f["structured"]))
+        v.sample({"corpus": f["corpus"], "structured": f["structured"], "files": f["files"], "steps": f["steps"]})
+        for mode, cls, err in f["abnormal"]:
+            if "C17" in props:
+                v.violation({"check": "NoPanicNoHang", "corpus": f["corpus"], "mode": mode}, "breadlog %s on corpus %s (%s): %s" % (cls, f["corpus"], mode, err), f["steps"])
+        for prop, text in f["problems"]:
+            if prop in props:
+                v.violation({"check": "Corpus", "corpus": f["corpus"], "structured": f["structured"], "what": text[:40]}, "%s: %s" % (prop, text), f["steps"])
+    batch.judge(v, props)
+
+
+def c03(tier):
+    v = Verdict("C03", tier)
+    cases = tlc_cases(v, "intended/Rewrite.cfg" if tier == "thorough" else "intended/RewriteQ.cfg", module="Rewrite.tla", tag="REW")
+    binary = common.build_breadlog()
+
+    def relabel(prop, r, text):
+        if r is not None and r.case["outcome"] == "hasref" and "insertions=[]" not in text:
+            return "C03"
+        return prop
+    run_cases(binary, None, v, {"C03"}, "rewrite", packs=rewrite_packs(cases), relabel=relabel)
+    # statements that already carry a reference, in every layout, must receive nothing; every edit is a pure insertion
+    cases2 = tlc_cases(v, "intended/StmtLayoutQ.cfg")
+    if tier != "thorough":
+        rnd = random.Random(common.seed())
+        rnd.shuffle(cases2)
+        cases2 = cases2[:20000]
+    run_cases(binary, cases2, v, {"C03"}, "layout", relabel=relabel)
+    # malformed text
+    hostile_step(binary, v, {"C03"}, "intended/HostileQ.cfg")
+    # real code
+    corpus_step(binary, v, {"C03"})
+    # thousands of statements in one file, LF and CRLF, crossing write-cache boundaries
+    import runlevel as rl
+    batch = rl.Batch()
+    S = rl.S
+    for n, crlf, structured in ((1000, False, False), (1000, True, True)) + (((10000, True, False),) if tier == "thorough" else ()):
+        tree = {"big.rs": [S(10000 + i, ref=(5 if i % 7 == 3 else None)) for i in range(n)], "zero.rs": []}
+        sc = rl.Scenario("big-%d" % n, tree, lock=100, structured=structured, crlf=crlf, pad=50000)
+        rl.planned_runs(binary, sc, [[("edit", ""), ("edit", "")]], batch, v)
+    batch.judge(v, {"C03"})
+    v.cov["rule"] = ("every Rewrite.tla case (contents of <= N units of byte width 1-4 x every set of insertion points) rendered as "
+                     "statements whose literals start at those points; statement layouts incl. already-referenced ones; Hostile.tla "
+                     "token sequences; the repository's corpora in both styles; files with 10^3-10^4 statements; monitor: erasing the "
+                     "inserted tokens gives back the original bytes")
+    return v.finish()
+
+
+def hostile_step(binary, v, props, cfg):
+    import hostile
+    cases = tlc_cases(v, cfg, module="Hostile.tla", tag="HOST")
+    files = {}
+    for i, c in enumerate(cases):
+        files["h%06d.rs" % i] = (hostile.render(c), c)
+    names = sorted(files)
+    per = 1500
+    jobs = []
+    for structured in (False, True):
+        for i in range(0, len(names), per):
+            chunk = {n: files[n][0] for n in names[i:i + per]}
+            jobs.append((binary, structured, chunk, (i // per) % 2 == 0))
+    with multiprocessing.get_context("fork").Pool(max(2, min(common.NCPU - 2, 12))) as pool:
+        outs = pool.map(hostile.run_batch, jobs, chunksize=1)
+    for job, out in zip(jobs, outs):
+        v.cov["hostile_files"] = v.cov.get("hostile_files", 0) + out.files
+        v.cov["hostile_files_with_insertions"] = v.cov.get("hostile_files_with_insertions", 0) + out.with_insertions
+        v.cov["traces_validated_against_impl"] += 1
+        for n in job[2]:
+            v.evaluated(("hostile", job[1], n))
+        for mode, cls, err, culprits in out.abnormal:
+            if "C17" in props:
+                for (fn, c2, e2) in (culprits or [("?", cls, err)]):
+                    content = files[fn][0].decode("utf-8", "replace") if fn in files else ""
+                    toks = files[fn][1]["f"] if fn in files else []
+                    v.violation({"check": "NoPanicNoHang", "mode": mode, "class": c2, "tokens": ",".join(toks)},
+                                "breadlog %s in %s mode on hostile file %r (tokens %s): %s" % (c2, mode, content[:120], toks, e2[-200:]),
+                                {"tokens": toks, "content": content, "structured": job[1], "mode": mode})
+            v.cov.setdefault("abnormal_terminations", []).append({"mode": mode, "class": cls})
+        for fn, text in out.problems:
+            prop = "C03" if "pure insertion" in text else ("C05" if "reported" in text else "C17")
+            if prop in props:
+                toks = files[fn][1]["f"] if fn in files else []
+                v.violation({"check": "HostileMonitor", "what": text[:40], "tokens": ",".join(toks), "structured": job[1]},
+                            "%s: %s on hostile file %s (tokens %s)" % (prop, text, fn, toks),
+                            {"tokens": toks, "content": files[fn][0].decode("utf-8", "replace") if fn in files else "", "structured": job[1]})
+    if cases:
+        c = cases[len(cases) // 2]
+        v.sample({"hostile_tokens": c["f"], "tail": c["tail"], "content": hostile.render(c).decode("utf-8", "replace")})
+
+
+def c17(tier):
+    v = Verdict("C17", tier, level="exploration")
+    binary = common.build_breadlog()
+    hostile_step(binary, v, {"C17"}, "intended/HostileT.cfg" if tier == "thorough" else "intended/HostileQ.cfg")
+    corpus_step(binary, v, {"C17"})
+    # statement families: every execution is monitored for abnormal termination
+    cases = tlc_cases(v, "intended/StmtDecoy.cfg")
+    run_cases(binary, cases, v, {"C17"}, "decoy")
+    # ID arithmetic at the u32 boundary and empty / huge inputs
+    import runlevel as rl
+    batch = rl.Batch()
+    S = rl.S
+    hi = rl.bl.U32MAX - 9
+    for structured in (False, True):
+        for lock in (None, 9, 8):
+            sc = rl.Scenario("u32-boundary", {"f1.rs": [S(11), S(12, ref=hi + 8), S(13)], "f2.rs": [S(21, ref=hi + 9), S(22)]},
+                             lock=lock, base=hi, structured=structured)
+            rl.planned_runs(binary, sc, [[("check", ""), ("edit", ""), ("check", "")]], batch, v)
+        sc = rl.Scenario("empty-files", {"f1.rs": [], "f2.rs": []}, structured=structured)
+        rl.planned_runs(binary, sc, [[("check", ""), ("edit", "")]], batch, v)
+        for n in ((2000, 20000) if tier == "thorough" else (2000,)):
+            sc = rl.Scenario("large-%d" % n, {"big.rs": [S(10000 + i) for i in range(n)]}, structured=structured, pad=2000000 if n > 2000 else 300000)
+            rl.planned_runs(binary, sc, [[("check", ""), ("edit", "")]], batch, v)
+    batch.judge(v, {"C17"})
+    v.cov["rule"] = ("Hostile.tla: every sequence of <= N tokens over a 32-token alphabet of tool-breaking fragments x {trailing newline, none} "
+                     "as one file each, both styles, with a non-UTF-8 file alongside; real-code corpora; statement families; u32 boundary; "
+                     "empty and multi-megabyte files; non-trivial = file in which --check or edit found something")
+    v.cov["distinct_nontrivial_note"] = "counted as evaluated cases; files with insertions: see hostile_files_with_insertions"
+    v.assumptions += ["exploration guided by a model, not a decision over all byte strings (DESIGN.md section 6)"]
+    return v.finish()
+
+
+TABLE = {"C03": c03, "C17": c17, "C10": c10, "C11": c11, "C12": c12, "C13": c13, "C14": c14}
